@@ -352,7 +352,7 @@ def merge_cases():
                 finally:
                     rewrite.WHILE_CUTS.pop(LOOP_KEY, None)
                 if not cut.entered:
-                    return [("C12-M/merge-loop/cut-point-reached", False)]
+                    raise EngineUnsupported("the loop under a cut-point contract was not reached: the code was restructured")
                 if mode != "exit":
                     return [("C12-M/merge-loop/%s: stopped at the cut" % mode, False)]
                 y = out[0] if len(out) == 1 else None
